@@ -50,7 +50,7 @@ func thorough() bool { return *flagTier == "thorough" }
 
 const (
 	second = time.Second
-	safety = 2500 * time.Millisecond // distance kept from every expiry boundary
+	safety = 5 * time.Second // distance kept from every expiry boundary (the model tolerates 3 s on instants)
 )
 
 // ---------- passwords and stored hashes ----------
@@ -215,7 +215,7 @@ func nearBoundary(m time.Duration) bool {
 }
 
 // settle: no stored session may be within the safety distance of an expiry boundary when the
-// implementation reads the clock; if one is, let 5 s pass (which moves it across) and look again.
+// implementation reads the clock; if one is, let 11 s pass (which moves it across) and look again.
 func (h *harness) settle() {
 	for tries := 0; tries < 50; tries++ {
 		ok := true
@@ -227,7 +227,7 @@ func (h *harness) settle() {
 		if ok {
 			return
 		}
-		h.advance(5 * second)
+		h.advance(11 * second)
 	}
 	panic("web: cannot settle the session table away from the expiry boundaries")
 }
@@ -694,13 +694,13 @@ func (h *harness) defaultBody(method, path string) body {
 	return body{kind: "none"}
 }
 
-var margins = []time.Duration{30 * time.Minute, auth.VerifExtendThreshold + 4*second, auth.VerifExtendThreshold - 4*second, 60 * second, 4 * second,
-	-4 * second, -60 * second, -30 * time.Minute, -2 * time.Hour, -100 * time.Hour}
+var margins = []time.Duration{30 * time.Minute, auth.VerifExtendThreshold + 8*second, auth.VerifExtendThreshold - 8*second, 60 * second, 8 * second,
+	-8 * second, -60 * second, -30 * time.Minute, -2 * time.Hour, -100 * time.Hour}
 
 // G1: every path x method under one cookie state (one history per state and path)
 func (h *harness) gridCookieStates() {
 	extra := []string{"/api/nope", "/api", "/api/", "/", "/api/auth", "/api/config/nope"}
-	states := []string{"absent", "random", "loggedout", "expired-4s", "expired-30m", "expired-2h-collected", "live", "live-near-expiry"}
+	states := []string{"absent", "random", "loggedout", "expired-8s", "expired-30m", "expired-2h-collected", "live", "live-near-expiry"}
 	for _, st := range states {
 		for _, p := range append(append([]string{}, h.paths...), extra...) {
 			h.begin()
@@ -716,10 +716,10 @@ func (h *harness) gridCookieStates() {
 					if cookie >= 0 {
 						h.do(req{method: "POST", path: "/api/auth/logout", cookie: cookie, body: body{kind: "none"}})
 					}
-				case "expired-4s":
+				case "expired-8s":
 					cookie = h.mustLogin()
 					if cookie >= 0 {
-						h.ageTo(cookie, -4*second)
+						h.ageTo(cookie, -8*second)
 					}
 				case "expired-30m":
 					cookie = h.mustLogin()
@@ -1062,8 +1062,8 @@ func main() {
 
 	h.meta.Rule = "histories of HTTP requests against the running dashboard webserver (Harden -> ServeMux -> WrapHandler -> endpoint): " +
 		"grid = every registered path + 6 unregistered x {GET,HEAD,POST,PUT,PATCH,DELETE,OPTIONS} under each cookie state " +
-		"{absent, random, logged-out, expired by 4 s / 30 min / 2 h+GC, live, live near expiry}; Origin x Sec-Fetch-Site x method x {no cookie, live}; " +
-		"every registered route x 10 expiry margins (-100 h .. +30 min, 4 s either side of expiry and of the extension threshold); login matrix stored hash " +
+		"{absent, random, logged-out, expired by 8 s / 30 min / 2 h+GC, live, live near expiry}; Origin x Sec-Fetch-Site x method x {no cookie, live}; " +
+		"every registered route x 10 expiry margins (-100 h .. +30 min, 8 s either side of expiry and of the extension threshold); login matrix stored hash " +
 		"(2 valid, 13 malformed) x user name x password x body shape; random histories (8-32 ops: login, logout, change-password, config patch, any route, clock, GC, stored-hash edits). " +
 		"distinct by the op list without instants; non-trivial = presents the cookie of a session that was issued at some time (live, expired or logged out) or an Origin header"
 
@@ -1071,7 +1071,7 @@ func main() {
 	h.gridHarden()
 	h.gridMargins()
 	h.gridLogin()
-	n := 150
+	n := 100
 	if thorough() {
 		n = 1500
 	}
